@@ -147,7 +147,7 @@ def _bind_params(h, call, prefix):
     bound = {}
     args = list(call.args)
     if isinstance(call.func, ast.Attribute) and params[:1] == ["self"] and not h.decorator_list:
-        args = [ast.Name(id="self", ctx=ast.Load())] + args
+        args = [_clone(call.func.value)] + args
     for i, v in enumerate(args):
         if i >= len(params):
             raise NotInlinable("too many arguments")
@@ -212,10 +212,50 @@ def _helper_body(mod, h, call, res, caller):
     body = [_Subst(subst).visit(s) for s in body]
     body = [_Rename(mapping).visit(s) for s in body]
     init = ast.copy_location(ast.Assign(targets=[ast.Name(id=res, ctx=ast.Store())], value=ast.Constant(value=None)), call)
+    if _always_returns(body):
+        return stmts + _elim_returns(body, res)      # every path assigns the result: no 'res = None' needed
     return stmts + [init] + _elim_returns(body, res)
 
 
+def _as_generator(h):
+    """acc = []; ... acc.append(X) ...; return acc   ->   the same function yielding X (only used where the result is iterated once)"""
+    body = list(h.body)
+    if body and isinstance(body[0], ast.Expr) and isinstance(body[0].value, ast.Constant) and isinstance(body[0].value.value, str):
+        body = body[1:]
+    if len(body) < 2 or not (isinstance(body[0], ast.Assign) and len(body[0].targets) == 1 and isinstance(body[0].targets[0], ast.Name)
+                             and isinstance(body[0].value, ast.List) and not body[0].value.elts):
+        return None
+    acc = body[0].targets[0].id
+    if not (isinstance(body[-1], ast.Return) and isinstance(body[-1].value, ast.Name) and body[-1].value.id == acc):
+        return None
+    mid = body[1:-1]
+    uses = [n for st in mid for n in ast.walk(st) if isinstance(n, ast.Name) and n.id == acc]
+    appends = [st for top in mid for st in ast.walk(top) if isinstance(st, ast.Expr) and isinstance(st.value, ast.Call) and isinstance(st.value.func, ast.Attribute)
+               and st.value.func.attr == "append" and isinstance(st.value.func.value, ast.Name) and st.value.func.value.id == acc and len(st.value.args) == 1]
+    if not appends or len(uses) != len(appends) or _has(ast.Module(body=mid, type_ignores=[]), (ast.Return, ast.Yield, ast.YieldFrom)):
+        return None
+    g = _clone(h)
+    gb = list(g.body)
+    if gb and isinstance(gb[0], ast.Expr) and isinstance(gb[0].value, ast.Constant) and isinstance(gb[0].value.value, str):
+        gb = gb[1:]
+    gb = gb[1:-1]
+
+    class A(ast.NodeTransformer):
+        def visit_Expr(self, n):
+            v = n.value
+            if isinstance(v, ast.Call) and isinstance(v.func, ast.Attribute) and v.func.attr == "append" and isinstance(v.func.value, ast.Name) and v.func.value.id == acc:
+                return ast.copy_location(ast.Expr(value=ast.Yield(value=v.args[0])), n)
+            return n
+    g.body = [A().visit(st) for st in gb]
+    g.name, g.decorator_list = h.name, []
+    return g
+
+
 def _generator_body(mod, g, call, target, loop_body, caller):
+    if g is not caller and not _has(g, ast.Yield):
+        g2 = _as_generator(g)
+        if g2 is not None:
+            g = g2
     if g is caller or not _has(g, ast.Yield) or _has(g, (ast.YieldFrom, ast.Nonlocal, ast.Global)):
         raise NotInlinable("not a plain generator")
     if _has(ast.Module(body=loop_body, type_ignores=[]), (ast.Break, ast.Continue)):
@@ -290,6 +330,44 @@ def _module_helper(mod, f, caller=None):
                 return h
             if [norm_(d) for d in h.decorator_list] == ["staticmethod"]:
                 return h
+    return _foreign_helper(mod, f)
+
+
+def _foreign_helper(mod, f):
+    """helper imported from a sibling module (from .utils import helper / utils.helper), or a method that only one class of the
+    hand-written modules defines, called on any receiver: X.is_inlined(..)"""
+    repo = getattr(mod, "repo", None)
+    if repo is None:
+        return None
+    from .corefuncs import CORE_FUNCS
+
+    def sibling(modname):
+        modname = modname.lstrip(".")
+        if modname.startswith("stationeers_pytrapic."):
+            modname = modname[len("stationeers_pytrapic."):]
+        return modname if modname in CORE_FUNCS else None
+    if isinstance(f, ast.Name) and f.id in mod.imports and f.id not in mod.raw_funcs:
+        src, attr = mod.imports[f.id]
+        sm = sibling(src)
+        if sm and attr:
+            rm = repo.raw_mod(sm)
+            h = rm.raw_funcs.get(attr) if rm is not None else None
+            if isinstance(h, ast.FunctionDef) and getattr(h, "cls", None) is None and attr not in CORE_FUNCS.get(sm, set()):
+                return h
+    if isinstance(f, ast.Attribute) and isinstance(f.value, ast.Name) and f.value.id in mod.imports and mod.imports[f.value.id][1] in (None, f.value.id):
+        src, attr = mod.imports[f.value.id]
+        sm = sibling(src + "." + attr if attr and sibling(src) is None else src) or sibling(attr or "")
+        if sm:
+            rm = repo.raw_mod(sm)
+            h = rm.raw_funcs.get(f.attr) if rm is not None else None
+            if isinstance(h, ast.FunctionDef) and getattr(h, "cls", None) is None and f.attr not in CORE_FUNCS.get(sm, set()):
+                return h
+    if isinstance(f, ast.Attribute) and not (isinstance(f.value, ast.Name) and f.value.id in ("self", "cls")) and _pure_arg(f.value):
+        cands = repo.new_methods().get(f.attr, [])
+        if len(cands) == 1:
+            h = cands[0]
+            if not h.decorator_list and h.args.args and h.args.args[0].arg == "self":
+                return h
     return None
 
 
@@ -330,7 +408,7 @@ class _ExprInline(ast.NodeTransformer):
         params = [x.arg for x in a.args]
         args = list(c.args)
         if isinstance(c.func, ast.Attribute) and params[:1] == ["self"] and not h.decorator_list:
-            args = [ast.Name(id="self", ctx=ast.Load())] + args
+            args = [_clone(c.func.value)] + args
         defaults = dict(zip(params[len(params) - len(a.defaults):], a.defaults))
         bound = dict(zip(params, args))
         for k in c.keywords:
@@ -998,10 +1076,43 @@ def _propagate_option_flags(fn):
         if isinstance(n, ast.Name) and isinstance(n.ctx, ast.Store):
             stores[n.id] = stores.get(n.id, 0) + 1
     flags = {}
+    params = {a.arg for a in fn.args.args}
+
+    def stable(e):
+        """pure attribute chains / their boolean combinations over names that are bound at most once"""
+        if isinstance(e, ast.BoolOp):
+            return all(stable(v) for v in e.values)
+        if isinstance(e, ast.UnaryOp) and isinstance(e.op, ast.Not):
+            return stable(e.operand)
+        if isinstance(e, ast.Call) and isinstance(e.func, ast.Name) and e.func.id == "bool" and len(e.args) == 1 and not e.keywords:
+            return stable(e.args[0])
+        if isinstance(e, ast.Attribute) and _pure_arg(e):
+            root = e
+            while isinstance(root, (ast.Attribute, ast.Subscript)):
+                root = root.value
+            return isinstance(root, ast.Name) and (stores.get(root.id, 0) <= 1 if root.id not in params else stores.get(root.id, 0) == 0)
+        return False
+
+    def unbool(e):
+        if isinstance(e, ast.Call) and isinstance(e.func, ast.Name) and e.func.id == "bool" and len(e.args) == 1:
+            return unbool(e.args[0])
+        if isinstance(e, ast.BoolOp):
+            return ast.BoolOp(op=e.op, values=[unbool(v) for v in e.values])
+        if isinstance(e, ast.UnaryOp) and isinstance(e.op, ast.Not):
+            return ast.UnaryOp(op=ast.Not(), operand=unbool(e.operand))
+        return e
     for st in ast.walk(fn):
         if isinstance(st, ast.Assign) and len(st.targets) == 1 and isinstance(st.targets[0], ast.Name) and stores.get(st.targets[0].id) == 1 \
                 and isinstance(st.value, ast.Attribute) and _pure_arg(st.value) and isinstance(st.value.value, ast.Attribute) and st.value.value.attr == "options":
             flags[st.targets[0].id] = st.value
+        elif isinstance(st, ast.Assign) and len(st.targets) == 1 and isinstance(st.targets[0], ast.Name) and stores.get(st.targets[0].id) == 1 \
+                and st.targets[0].id not in params and not isinstance(st.value, ast.Attribute) and stable(st.value) and ".options." in norm_(st.value):
+            # flag = bool(<...>.options.x and other.y): a boolean over stable attributes, only ever tested
+            name = st.targets[0].id
+            uses = [n for n in ast.walk(fn) if isinstance(n, ast.Name) and n.id == name and isinstance(n.ctx, ast.Load)]
+            tested = all(isinstance(getattr(u, "parent", None), (ast.If, ast.IfExp, ast.BoolOp, ast.UnaryOp, ast.While)) for u in uses)
+            if tested:
+                flags[name] = unbool(st.value)
 
     class R(ast.NodeTransformer):
         def visit_Name(self, n):
